@@ -13,6 +13,7 @@ import argparse, threading, concurrent.futures as cf, glob, hashlib, json, os, r
 VERIF = os.path.dirname(os.path.dirname(os.path.abspath(__file__)))
 REPO = os.environ.get('VERIF_REPO', '/repo')
 BUILD = os.environ.get('VERIF_BUILD', os.path.join(VERIF, 'build'))
+REPLAYS = os.environ.get('VERIF_REPLAYS', os.path.join(VERIF, 'replays'))
 sys.path.insert(0, os.path.join(VERIF, 'vf'))
 from props import PROPS, VARIANTS  # noqa: E402
 
@@ -397,13 +398,13 @@ def main():
         if kf['id'] not in printed:
             printed.add(kf['id'])
             print('KNOWN-FINDING: property=%s %s [%s]' % (a.prop, kf['what'], kf['id']))
-    os.makedirs(os.path.join(VERIF, 'replays'), exist_ok=True)
+    os.makedirs(REPLAYS, exist_ok=True)
     if not a.replay:
-        for old in glob.glob(os.path.join(VERIF, 'replays', '%s-%d-*.json' % (a.prop, seed))):
+        for old in glob.glob(os.path.join(REPLAYS, '%s-%d-*.json' % (a.prop, seed))):
             os.remove(old)
     n = 0
     for key, v in new_viol:
-        path = os.path.join(VERIF, 'replays', '%s-%d-%d.json' % (a.prop, seed, n))
+        path = os.path.join(REPLAYS, '%s-%d-%d.json' % (a.prop, seed, n))
         n += 1
         with open(path, 'w') as f:
             json.dump({'property': a.prop, 'tier': tier, 'seed': seed, 'job': v.get('job'), 'key': key, 'what': v['what'],
